@@ -113,6 +113,11 @@ class PPTBoundaryPlumbing:
         x = _rc(rng, dims[0] * dims[1], dims[0] * dims[1])
         return dict(rho=(x + x.conj().T) / 2, dims=dims)
 
+    def semantic(self, rng, dims):
+        # end-to-end, no stubs: both-sides threshold probes of the returned boundaries against eigenvalues computed here (the bounded job of the same property)
+        r = job_thresholds('quick', np.random.default_rng(int(rng.integers(0, 2 ** 31))), tuple(dims))[0]
+        return r['verdict'] == 'pass', r.get('witness')
+
 
 class BoundaryFormula:
     """get_density_matrix_boundary with numpy.linalg.eigvalsh replaced by its ASSUMED contract (ascending eigenvalues e_0 <= ... <= e_{N-1} of the
@@ -187,6 +192,18 @@ class BoundaryFormula:
     def sample(self, rng, d):
         x = _rc(rng, d, d); rho = x @ x.conj().T; rho /= np.trace(rho).real
         return dict(rho=rho, ev=None, nrm=None)
+
+    def semantic(self, rng, d):
+        # end-to-end, no stubs: the returned lengths are thresholds of positivity along the ray (eigenvalues computed here), for random states of every rank
+        sq = np.random.default_rng(int(rng.integers(0, 2 ** 31))); rho0 = np.eye(d) / d
+        for t in range(20):
+            dm = _rand_dm(sq, d, rank=int(sq.integers(1, d + 1)))
+            nrm = gm.dm_to_gellmann_norm(dm); unit = (dm - rho0) / nrm
+            bl, bu = em.get_density_matrix_boundary(dm)
+            ev = lambda b: np.linalg.eigvalsh(rho0 + b * unit).min()
+            if not (bl < 0 < bu and ev(bu * (1 - 1e-6)) > 0 and ev(bu * (1 + 1e-6)) < 0 and ev(bl * (1 - 1e-6)) > 0 and ev(bl * (1 + 1e-6)) < 0):
+                return False, dict(function='get_density_matrix_boundary', dm=jsonable(dm), returned=[float(bl), float(bu)])
+        return True, None
 
 
 CONTRACTS = {'interp': Interp(), 'pptb': PPTBoundaryPlumbing(), 'bform': BoundaryFormula()}
